@@ -281,13 +281,16 @@ impl Codec {
                                 if tail.iter().enumerate().any(|(k, t)| t[..] != ops[k..]) { bad.push("ops_from(k)"); }
                                 if !beyond { bad.push("ops_from(len+1) is Some"); }
                                 if m.bytecode() != bytes { bad.push("bytecode()"); }
-                                // byte offsets of ops
+                                // byte offsets of ops, relative to what the parser made of the string (whether the
+                                // parser itself is right is C13's question)
+                                use essential_vm::asm::ToBytes;
                                 let mut off = vec![];
                                 let mut i = 0;
-                                for (b, a) in &own { off.push(i); let _ = b; i += 1 + a.len(); }
+                                for op in &ops { off.push(i); i += op.to_bytes().into_iter().count(); }
                                 if m.op_indices() != off || *bidx != off { bad.push("op_indices()"); }
+                                let ser: Vec<u8> = asm::to_bytes(ops.iter().copied()).collect();
                                 let from_iter: BytecodeMapped = ops.iter().copied().collect();
-                                if from_iter.bytecode() != bytes || from_iter != *m { bad.push("FromIterator"); }
+                                if from_iter.bytecode() != ser || (ser == bytes && from_iter != *m) { bad.push("FromIterator"); }
                                 if !bad.is_empty() {
                                     rep.violation("C14", "mapping-content", format!("mapped form disagrees with the parsed list in: {}", bad.join(", ")), case());
                                 }
